@@ -39,7 +39,26 @@ def get_kernel(backend: str, cross: bool, order: int):
             return tuple(float(v) for v in fn(x, starts, L, win, omega, **kw))
 
     call.__name__ = name
-    return call
+    return _guard_inputs(call, name)
+
+
+MODIFIED = []   # (kernel name, which argument, description): calls after which an input array no longer had its bytes
+
+
+def _guard_inputs(call, name):
+    """A statistics kernel only reads its record(s), starts and window: note every call that changes one of them."""
+    def guarded(x, y, starts, L, win, omega, **kw):
+        arrs = [("x", x), ("y", y), ("starts", starts), ("window", win)]
+        before = [a.tobytes() if isinstance(a, np.ndarray) else None for _, a in arrs]
+        out = call(x, y, starts, L, win, omega, **kw)
+        if len(MODIFIED) < 8:
+            for (nm, a), b in zip(arrs, before):
+                if b is not None and a.tobytes() != b:
+                    MODIFIED.append((name, nm, f"L={L} starts={np.asarray(starts).tolist()[:6]} omega={float(omega)!r}"))
+        return out
+
+    guarded.__name__ = name
+    return guarded
 
 
 STAT = ("MXX", "MYY", "mu_r", "mu_i", "M2")
